@@ -46,6 +46,7 @@ type Config struct {
 	Preempt     int // preemption bound for fine-grained scheduling; <0 = cooperative only
 	MaxLevel    int // consecutive successful coin flips allowed
 	StopOnFirst bool
+	MaxViolations int // stop after this many violating paths (0 = unlimited)
 	MaxPaths    int
 	NumCPU      int
 	GlobalCoins bool // math/rand.Float32 (package level) is a forked coin; else always tails (level 0)
